@@ -265,4 +265,90 @@ def refitModel [DecidableEq ν] (est : Est (List β) α θ) (le : α → α → 
   else ((predictByName (est.score th) stored targets.length named).map
           (refitFrom est le thr cfg th rows targets)).getD ⟨.featMismatch, [], none⟩
 
+/-! ## hyper-parameter search (`_find_hyperparameters`)
+
+`Model.fit` calls `_find_hyperparameters(self, norm_feat, start_labels)` after the
+(conditional) shuffle and before the loop.  With a scikit-learn `BaseSearchCV`
+estimator (`_needs_cv`, as `PercolatorModel` uses) this fits the search object on
+the labelled rows and configures the inner estimator with `best_params_`.  The
+search (GridSearchCV, its CV splitter, its scoring) is a black box: *any*
+function of the example list it is given. -/
+
+/-- the hyper-parameter search: `search` is `model.estimator.fit(cv_samples, cv_targ).best_params_`
+as a function of the examples; `configure` is `model.estimator.estimator.set_params(**best_params)`
+acting on the state of the (inner) estimator that then enters the loop.
+src: mokapot/model.py:638-649 -/
+structure HyperSearch (ρ θ π : Type) where
+  search : List (ρ × Bool) → π
+  configure : π → θ → θ
+
+/-- result of `_find_hyperparameters`: the example list of every search call made
+(none or one), the estimator state handed to the loop, `model._needs_cv` afterwards -/
+structure HyperRes (ρ θ : Type) where
+  searches : List (List (ρ × Bool))
+  theta : θ
+  needsCv : Bool
+
+/-- `_find_hyperparameters(model, features, labels)`:
+`cv_samples = features[labels.astype(bool), :]`, `cv_targ = (labels[labels.astype(bool)] + 1) / 2`
+(that is `trainSet features labels`), `model.estimator.fit(cv_samples, cv_targ)`, configure the inner
+estimator with `best_params_`, `_needs_cv = False`; otherwise the estimator unchanged.
+src: mokapot/model.py:618-655 -/
+def findHyper {π : Type} (hs : HyperSearch ρ θ π) (needsCv : Bool) (th0 : θ) (feat : List ρ) (labels : List Int) :
+    HyperRes ρ θ :=
+  if needsCv then ⟨[trainSet feat labels], hs.configure (hs.search (trainSet feat labels)) th0, false⟩
+  else ⟨[], th0, false⟩
+
+/-- what shuffle + search + loop produce -/
+structure FitResCv (ρ θ : Type) where
+  searches : List (List (ρ × Bool))
+  needsCv : Bool
+  loop : FitRes ρ θ
+
+/-- shuffle, hyper-parameter search, loop — `fitLoop` preceded by the search step.  The search
+is given the *shuffled* feature matrix and the *shuffled* start labels (the same two arrays
+the first loop iteration uses).
+src: mokapot/model.py:290-326 -/
+def fitLoopCv {π : Type} (hs : HyperSearch ρ θ π) (needsCv : Bool) (est : Est ρ α θ) (relabel : List α → List Int)
+    (shuffle : Bool) (perm : List Nat) (maxIter : Nat) (th0 : θ) (rows : List ρ) (start : List Int) :
+    FitResCv ρ θ :=
+  let sidx := if shuffle then perm else List.range start.length
+  let oidx := argsort sidx
+  let feat := if shuffle then gather rows sidx else rows
+  let start' := if shuffle then gather start sidx else start
+  let h := findHyper hs needsCv th0 feat start'
+  ⟨h.searches, h.needsCv, loopGo est relabel sidx oidx feat maxIter h.theta start'⟩
+
+/-- *specification* of the search input, without index bookkeeping: the pairs
+(row of PSM `i`, start label of PSM `i` is +1) of the labelled PSMs, presented in `order` -/
+def cvSpec (order : List Nat) (rows : List ρ) (start : List Int) : List (ρ × Bool) :=
+  order.filterMap (pairAt rows start)
+
+/-- the estimator state that enters the loop when the search (if any) was given the examples `ex` -/
+def cvTheta {π : Type} (hs : HyperSearch ρ θ π) (needsCv : Bool) (th0 : θ) (ex : List (ρ × Bool)) : θ :=
+  if needsCv then hs.configure (hs.search ex) th0 else th0
+
+/-- the outcome of `Model.fit` together with the search calls and the `_needs_cv` flag afterwards -/
+structure FitOutCv (ρ θ : Type) where
+  searches : List (List (ρ × Bool))
+  needsCv : Bool
+  out : FitOut ρ θ
+
+/-- as `runFrom`; the search runs even when `max_iter = 0` (the `IndexError` comes after the loop) -/
+def runFromCv {π : Type} (hs : HyperSearch ρ θ π) (needsCv : Bool) (est : Est ρ α θ) (le : α → α → Bool) (thr : Rat)
+    (cfg : FitCfg) (th0 : θ) (rows : List ρ) (targets : List Bool) (st : Start) : FitOutCv ρ θ :=
+  let r := fitLoopCv hs needsCv est (tdcRelabel le thr targets) cfg.shuffle cfg.perm cfg.maxIter th0 rows st.labels
+  ⟨r.searches, r.needsCv,
+    if cfg.maxIter = 0 then ⟨.zeroIter, [], none⟩ else afterLoop cfg.override st r.loop⟩
+
+/-- `Model.fit(psms)` for an untrained model *with* the hyper-parameter search step.  When `fit`
+raises before reaching `_find_hyperparameters` the flag `_needs_cv` is left as it was.
+src: mokapot/model.py:244-347, 618-655 -/
+def fitModelCv {π : Type} (hs : HyperSearch ρ θ π) (needsCv : Bool) (est : Est ρ α θ) (le : α → α → Bool) (thr : Rat)
+    (cfg : FitCfg) (th0 : θ) (rows : List ρ) (cols : List (List α)) (targets : List Bool) : FitOutCv ρ θ :=
+  if targets.all (· == false) then ⟨[], needsCv, ⟨.noTargets, [], none⟩⟩
+  else if targets.all (· == true) then ⟨[], needsCv, ⟨.noDecoys, [], none⟩⟩
+  else ((startLabels le thr targets cols cfg.direction).map
+          (runFromCv hs needsCv est le thr cfg th0 rows targets)).getD ⟨[], needsCv, ⟨.noStart, [], none⟩⟩
+
 end Mk.Fit
